@@ -113,6 +113,18 @@ TYPES = [(False, 1), (True, 1), (True, 2)]
 
 def oracle(case, tag, line):
     """Property C06 on ONE implementation output line -> list of (klass, text)."""
+    if case.startswith("D "):
+        # two concurrent incoming handshakes: the property holds for each on its own ("nothing else affected")
+        f = case.split()
+        m = re.match(r"^A\[(.*)\] B\[(.*)\]$", line)
+        if not m:
+            return oracle("I %s %s %s %s" % (f[1], f[2], f[3], f[4]), "matrix", line)
+        out = []
+        for name, sc, sub in (("A", f[4], m.group(1)), ("B", f[5], m.group(2))):
+            for kl, text in oracle("I %s %s %s %s" % (f[1], f[2], f[3], sc), "matrix", sub):
+                out.append((("concurrent-" + kl) if kl in ("compatible-but-failed", "stall", "stream-misaligned", "library-stream-unreadable") else kl,
+                            "peer %s of two concurrent incoming handshakes: %s" % (name, text)))
+        return out
     bad = []
     if "a0:noconnect" in line or line.startswith("ERR:connect") or line.startswith("ERR:listen"):
         return [("setup-failed", "the scenario could not be set up even when re-run alone three times (the library made no outgoing connection / the scripted peer could not connect): " + line[:80])]
